@@ -6,40 +6,52 @@ import Nebula.Spec.Dns
 namespace Nebula.Lemmas.Dns
 open Nebula.Net Nebula.Dns Nebula.Spec.Dns
 
-/-- where a table entry `(key, a)` comes from: a completed handshake's certificate name and overlay
-addresses, or the responder's own certificate. -/
-def Src (me : Self) (evs : List Ev) (key : Name) (a : Addr) : Prop :=
-  (∃ k n as, Ev.hs k n as ∈ evs ∧ key = lower (n ++ ['.']) ∧ a ∈ as) ∨
-  (∃ n as, me = some (n, as) ∧ key = lower n ++ ['.'] ∧ a ∈ as)
+/-- a table entry `(key, a)` comes from a completed handshake's certificate name and overlay addresses -/
+def HsSrc (evs : List Ev) (key : Name) (a : Addr) : Prop :=
+  ∃ k n as, Ev.hs k n as ∈ evs ∧ key = lower (n ++ ['.']) ∧ a ∈ as
 
-def TblOK (me : Self) (evs : List Ev) (f : Fam) (m : Tbl) : Prop :=
-  ∀ e ∈ m, e.2.fam = f ∧ Src me evs e.1 e.2
+/-- … or from the own certificate `cur` -/
+def SelfSrc (cur : Self) (key : Name) (a : Addr) : Prop :=
+  ∃ n as, cur = some (n, as) ∧ key = lower n ++ ['.'] ∧ a ∈ as
+
+/-- where an answer may come from: a handshaked peer's certificate or the *current* own certificate -/
+def Src (cur : Self) (evs : List Ev) (key : Name) (a : Addr) : Prop := HsSrc evs key a ∨ SelfSrc cur key a
+
+/-- every entry of a table has the right family and satisfies `P` -/
+def TblP (P : Name → Addr → Prop) (f : Fam) (m : Tbl) : Prop := ∀ e ∈ m, e.2.fam = f ∧ P e.1 e.2
+
+/-- entry invariant: from a handshake, or seeded from the current own certificate under `selfHost` -/
+def EntryOK (evs : List Ev) (cur : Self) (selfHost : Name) (key : Name) (a : Addr) : Prop :=
+  HsSrc evs key a ∨ (key = selfHost ∧ SelfSrc cur key a)
 
 def HostsOK (evs : List Ev) (h : List (Addr × Nat)) : Prop :=
   ∀ e ∈ h, ∃ n as, Ev.hs e.2 n as ∈ evs ∧ e.1 ∈ as
 
 structure Inv (me : Self) (evs : List Ev) (s : St) : Prop where
-  self_eq : s.self = me
-  m4 : TblOK me evs .v4 s.map4
-  m6 : TblOK me evs .v6 s.map6
+  self_eq : s.self = selfAfter me evs
+  m4 : TblP (EntryOK evs s.self s.selfHost) .v4 s.map4
+  m6 : TblP (EntryOK evs s.self s.selfHost) .v6 s.map6
   hosts : HostsOK evs s.hosts
+  off : s.enabled = false → s.map4 = [] ∧ s.map6 = []
 
-theorem Src.mono {me : Self} {evs evs' : List Ev} {key a} (h : ∀ e ∈ evs, e ∈ evs')
-    (hs : Src me evs key a) : Src me evs' key a := by
-  rcases hs with ⟨k, n, as, h1, h2, h3⟩ | h2
-  · exact Or.inl ⟨k, n, as, h _ h1, h2, h3⟩
-  · exact Or.inr h2
+theorem HsSrc.mono {evs evs' : List Ev} {key a} (h : ∀ e ∈ evs, e ∈ evs') (hs : HsSrc evs key a) :
+    HsSrc evs' key a := by
+  obtain ⟨k, n, as, h1, h2, h3⟩ := hs
+  exact ⟨k, n, as, h _ h1, h2, h3⟩
 
-theorem TblOK.mono {me : Self} {evs evs' : List Ev} {f m} (h : ∀ e ∈ evs, e ∈ evs')
-    (ht : TblOK me evs f m) : TblOK me evs' f m :=
-  fun e he => ⟨(ht e he).1, (ht e he).2.mono h⟩
+theorem TblP.imp {P Q : Name → Addr → Prop} {f m} (h : ∀ k a, P k a → Q k a) (ht : TblP P f m) : TblP Q f m :=
+  fun e he => ⟨(ht e he).1, h _ _ (ht e he).2⟩
 
-theorem TblOK.del {me : Self} {evs f m} (k : Name) (ht : TblOK me evs f m) :
-    TblOK me evs f (m.del k) :=
+theorem TblP.del {P : Name → Addr → Prop} {f m} (k : Name) (ht : TblP P f m) : TblP P f (m.del k) :=
   fun e he => ht e (List.mem_filter.mp he).1
 
-theorem TblOK.set {me : Self} {evs f m key a} (ht : TblOK me evs f m) (hf : a.fam = f)
-    (hs : Src me evs key a) : TblOK me evs f (m.set key a) := by
+theorem del_key_ne {m : Tbl} {k : Name} : ∀ e ∈ m.del k, e.1 ≠ k := by
+  intro e he
+  have := (List.mem_filter.mp he).2
+  simpa using this
+
+theorem TblP.set {P : Name → Addr → Prop} {f m key a} (ht : TblP P f m) (hf : a.fam = f) (hs : P key a) :
+    TblP P f (m.set key a) := by
   intro e he
   simp only [Tbl.set, List.mem_cons] at he
   rcases he with rfl | he
@@ -59,10 +71,10 @@ theorem is6_fam {a : Addr} (h : a.is6 = true) : a.fam = .v6 := by
       simp [Addr.is6, this] at h
     · rfl
 
-theorem addLoop_ok {me : Self} {evs : List Ev} (host : Name) (addrs : List Addr)
-    (hsrc : ∀ a ∈ addrs, Src me evs host a) :
-    ∀ (h4 h6 : Bool) (m4 m6 : Tbl), TblOK me evs .v4 m4 → TblOK me evs .v6 m6 →
-      TblOK me evs .v4 (addLoop host addrs h4 h6 m4 m6).1 ∧ TblOK me evs .v6 (addLoop host addrs h4 h6 m4 m6).2 := by
+theorem addLoop_ok (P : Name → Addr → Prop) (host : Name) (addrs : List Addr)
+    (hsrc : ∀ a ∈ addrs, P host a) :
+    ∀ (h4 h6 : Bool) (m4 m6 : Tbl), TblP P .v4 m4 → TblP P .v6 m6 →
+      TblP P .v4 (addLoop host addrs h4 h6 m4 m6).1 ∧ TblP P .v6 (addLoop host addrs h4 h6 m4 m6).2 := by
   induction addrs with
   | nil => intro h4 h6 m4 m6 a b; exact ⟨a, b⟩
   | cons a as ih =>
@@ -88,52 +100,126 @@ theorem addLoop_ok {me : Self} {evs : List Ev} (host : Name) (addrs : List Addr)
           · exact ih' _ _ _ _ ok4 ok6'
         · exact ih' _ _ _ _ ok4 ok6
 
+theorem selfAfter_append (me : Self) (evs : List Ev) (e : Ev) :
+    selfAfter me (evs ++ [e]) = (match e with
+      | .renew n as => some (n, as)
+      | _ => selfAfter me evs) := by
+  simp only [selfAfter, List.foldl_append, List.foldl_cons, List.foldl_nil]
+  cases e <;> rfl
+
 theorem inv_init (me : Self) : Inv me [] (St.init me) :=
-  ⟨rfl, fun _ h => by simp [St.init] at h, fun _ h => by simp [St.init] at h, fun _ h => by simp [St.init] at h⟩
+  ⟨rfl, fun _ h => by simp [St.init] at h, fun _ h => by simp [St.init] at h,
+    fun _ h => by simp [St.init] at h, fun _ => ⟨rfl, rfl⟩⟩
 
-theorem Inv.mono {me : Self} {evs : List Ev} {s : St} (e : Ev) (h : Inv me evs s) :
-    Inv me (evs ++ [e]) s :=
-  have sub : ∀ x ∈ evs, x ∈ evs ++ [e] := fun x hx => List.mem_append_left _ hx
-  ⟨h.self_eq, h.m4.mono sub, h.m6.mono sub,
-    fun x hx => by obtain ⟨n, as, h1, h2⟩ := h.hosts x hx; exact ⟨n, as, sub _ h1, h2⟩⟩
+/-- `seedSelf` on an enabled responder with own certificate `(name, addrs)`, whatever was seeded before:
+it suffices that every entry is from a handshake or sits under the previously seeded own name. -/
+theorem seedSelf_tables {evs : List Ev} {s : St} (hen : s.enabled = true) (name : Name) (addrs : List Addr)
+    (hself : s.self = some (name, addrs))
+    (w4 : TblP (fun k a => HsSrc evs k a ∨ (k = s.selfHost ∧ s.selfHost ≠ [])) .v4 s.map4)
+    (w6 : TblP (fun k a => HsSrc evs k a ∨ (k = s.selfHost ∧ s.selfHost ≠ [])) .v6 s.map6) :
+    (seedSelf s).self = s.self ∧ (seedSelf s).hosts = s.hosts ∧ (seedSelf s).enabled = true ∧
+    TblP (EntryOK evs s.self (seedSelf s).selfHost) .v4 (seedSelf s).map4 ∧
+    TblP (EntryOK evs s.self (seedSelf s).selfHost) .v6 (seedSelf s).map6 := by
+  have clean : ∀ (f : Fam) (m : Tbl),
+      TblP (fun k a => HsSrc evs k a ∨ (k = s.selfHost ∧ s.selfHost ≠ [])) f m →
+      TblP (EntryOK evs s.self (lower name ++ ['.'])) f
+        ((if (s.selfHost != [] && s.selfHost != lower name ++ ['.']) = true then m.del s.selfHost else m).del
+          (lower name ++ ['.'])) := by
+    intro f m w e he
+    have hne : e.1 ≠ lower name ++ ['.'] := del_key_ne e he
+    have he1 := (List.mem_filter.mp he).1
+    by_cases hst : (s.selfHost != [] && s.selfHost != lower name ++ ['.']) = true
+    · rw [if_pos hst] at he1
+      have hne2 : e.1 ≠ s.selfHost := del_key_ne e he1
+      have := w e (List.mem_filter.mp he1).1
+      refine ⟨this.1, Or.inl ?_⟩
+      rcases this.2 with h | ⟨h, _⟩
+      · exact h
+      · exact absurd h hne2
+    · rw [if_neg hst] at he1
+      have := w e he1
+      refine ⟨this.1, Or.inl ?_⟩
+      rcases this.2 with h | ⟨h, h0⟩
+      · exact h
+      · exfalso
+        apply hst
+        have h1 : (s.selfHost != []) = true := by simpa using h0
+        have h2 : (s.selfHost != lower name ++ ['.']) = true := by
+          simp only [bne_iff_ne, ne_eq]
+          intro e2; exact hne (h.trans e2)
+        simp [h1, h2]
+  have src : ∀ a ∈ addrs, EntryOK evs s.self (lower name ++ ['.']) (lower name ++ ['.']) a :=
+    fun a ha => Or.inr ⟨rfl, name, addrs, hself, rfl, ha⟩
+  have := addLoop_ok (EntryOK evs s.self (lower name ++ ['.'])) (lower name ++ ['.']) addrs src false false _ _
+    (clean .v4 s.map4 w4) (clean .v6 s.map6 w6)
+  rw [hself] at this
+  unfold seedSelf
+  simp only [hen, Bool.not_true, Bool.false_eq_true, if_false, hself]
+  exact ⟨trivial, trivial, trivial, this.1, this.2⟩
 
-theorem TblOK.delIf {me : Self} {evs f m} (c : Bool) (k : Name) (ht : TblOK me evs f m) :
-    TblOK me evs f (if c then m.del k else m) := by
-  cases c
-  · exact ht
-  · exact ht.del k
+theorem selfSrc_key_ne_nil {cur : Self} {k : Name} {a : Addr} (h : SelfSrc cur k a) : k ≠ [] := by
+  obtain ⟨n, as, _, hk, _⟩ := h
+  rw [hk]; simp
 
+/-- the weak table condition needed by `seedSelf_tables` follows from the invariant. -/
+theorem weak_of_entry {evs : List Ev} {cur : Self} {sh : Name} {f m}
+    (h : TblP (EntryOK evs cur sh) f m) : TblP (fun k a => HsSrc evs k a ∨ (k = sh ∧ sh ≠ [])) f m := by
+  intro e he
+  refine ⟨(h e he).1, ?_⟩
+  rcases (h e he).2 with h1 | ⟨h1, h2⟩
+  · exact Or.inl h1
+  · exact Or.inr ⟨h1, h1 ▸ selfSrc_key_ne_nil h2⟩
+
+/-- `seedSelf` preserves the invariant (history unchanged). -/
 theorem inv_seedSelf {me : Self} {evs : List Ev} {s : St} (h : Inv me evs s) :
     Inv me evs (seedSelf s) := by
-  unfold seedSelf
-  split
-  · exact h
-  · split
-    · exact h
-    · rename_i name addrs hself
-      have hs : me = some (name, addrs) := by rw [← h.self_eq]; exact hself
-      have src : ∀ a ∈ addrs, Src me evs (lower name ++ ['.']) a :=
-        fun a ha => Or.inr ⟨name, addrs, hs, rfl, ha⟩
-      have := addLoop_ok (me := me) (evs := evs) (lower name ++ ['.']) addrs src false false _ _
-        ((h.m4.delIf (s.selfHost != [] && s.selfHost != lower name ++ ['.']) s.selfHost).del (lower name ++ ['.']))
-        ((h.m6.delIf (s.selfHost != [] && s.selfHost != lower name ++ ['.']) s.selfHost).del (lower name ++ ['.']))
-      exact ⟨h.self_eq, this.1, this.2, h.hosts⟩
+  cases hen : s.enabled
+  · have : seedSelf s = s := by simp [seedSelf, hen]
+    rw [this]; exact h
+  · cases hs : s.self with
+    | none =>
+      have : seedSelf s = s := by simp [seedSelf, hen, hs]
+      rw [this]; exact h
+    | some p =>
+      cases p with | mk name addrs =>
+      obtain ⟨e1, e2, e3, t4, t6⟩ := seedSelf_tables (evs := evs) hen name addrs hs (weak_of_entry h.m4) (weak_of_entry h.m6)
+      refine ⟨by rw [e1]; exact h.self_eq, by rw [e1]; exact t4, by rw [e1]; exact t6, by rw [e2]; exact h.hosts, ?_⟩
+      intro hoff; rw [e3] at hoff; cases hoff
 
-theorem inv_enabled {me : Self} {evs : List Ev} {s : St} (b : Bool) (h : Inv me evs s) :
-    Inv me evs { s with enabled := b } := ⟨h.self_eq, h.m4, h.m6, h.hosts⟩
+theorem Inv.mono {me : Self} {evs : List Ev} {s : St} (e : Ev) (hne : ∀ n as, e ≠ .renew n as)
+    (h : Inv me evs s) : Inv me (evs ++ [e]) s := by
+  have sub : ∀ x ∈ evs, x ∈ evs ++ [e] := fun x hx => List.mem_append_left _ hx
+  have up : ∀ k a, EntryOK evs s.self s.selfHost k a → EntryOK (evs ++ [e]) s.self s.selfHost k a := by
+    intro k a hk
+    rcases hk with h1 | h1
+    · exact Or.inl (h1.mono sub)
+    · exact Or.inr h1
+  refine ⟨?_, h.m4.imp up, h.m6.imp up, ?_, h.off⟩
+  · rw [selfAfter_append, h.self_eq]
+    cases e <;> first | rfl | exact absurd rfl (hne _ _)
+  · intro x hx
+    obtain ⟨n, as, h1, h2⟩ := h.hosts x hx
+    exact ⟨n, as, sub _ h1, h2⟩
 
-theorem inv_clear {me : Self} {evs : List Ev} {s : St} (h : Inv me evs s) :
-    Inv me evs (clearRecords s) :=
-  ⟨h.self_eq, fun _ h => by simp [clearRecords] at h, fun _ h => by simp [clearRecords] at h, h.hosts⟩
+theorem inv_enabled {me : Self} {evs : List Ev} {s : St} (h : Inv me evs s) :
+    Inv me evs { s with enabled := true } :=
+  ⟨h.self_eq, h.m4, h.m6, h.hosts, fun hc => by cases hc⟩
+
+theorem inv_disable {me : Self} {evs : List Ev} {s : St} (h : Inv me evs s) :
+    Inv me evs (clearRecords { s with enabled := false }) :=
+  ⟨h.self_eq, fun _ h => by simp [clearRecords] at h, fun _ h => by simp [clearRecords] at h, h.hosts,
+    fun _ => ⟨rfl, rfl⟩⟩
 
 theorem inv_add {me : Self} {evs : List Ev} {s : St} (host : Name) (addrs : List Addr)
-    (src : ∀ a ∈ addrs, Src me evs (lower host) a) (h : Inv me evs s) :
+    (src : ∀ a ∈ addrs, HsSrc evs (lower host) a) (h : Inv me evs s) :
     Inv me evs (add s host addrs) := by
   unfold add
-  split
-  · exact h
-  · have := addLoop_ok (me := me) (evs := evs) (lower host) addrs src false false _ _ h.m4 h.m6
-    exact ⟨h.self_eq, this.1, this.2, h.hosts⟩
+  cases hen : s.enabled
+  · simp only [Bool.not_false, if_true]; exact h
+  · simp only [Bool.not_true, Bool.false_eq_true, if_false]
+    have := addLoop_ok (EntryOK evs s.self s.selfHost) (lower host) addrs (fun a ha => Or.inl (src a ha))
+      false false _ _ h.m4 h.m6
+    exact ⟨h.self_eq, this.1, this.2, h.hosts, fun hc => by simp [hen] at hc⟩
 
 theorem hosts_foldl (evs : List Ev) (k : Nat) (n : Name) (all as : List Addr) (hm : Ev.hs k n all ∈ evs)
     (hsub : ∀ a ∈ as, a ∈ all) :
@@ -150,18 +236,52 @@ theorem hosts_foldl (evs : List Ev) (k : Nat) (n : Name) (all as : List Addr) (h
     · exact ⟨n, all, hm, hsub a (List.mem_cons_self ..)⟩
     · exact hh e he
 
+/-- replacing the own certificate and reseeding (`renew`) preserves the invariant. -/
+theorem inv_renew {me : Self} {evs : List Ev} {s : St} (n : Name) (as : List Addr) (h : Inv me evs s) :
+    Inv me (evs ++ [Ev.renew n as]) (seedSelf { s with self := some (n, as) }) := by
+  have sub : ∀ x ∈ evs, x ∈ evs ++ [Ev.renew n as] := fun x hx => List.mem_append_left _ hx
+  have hosts' : HostsOK (evs ++ [Ev.renew n as]) s.hosts := by
+    intro x hx
+    obtain ⟨n', as', h1, h2⟩ := h.hosts x hx
+    exact ⟨n', as', sub _ h1, h2⟩
+  have hsa : selfAfter me (evs ++ [Ev.renew n as]) = some (n, as) := by rw [selfAfter_append]
+  by_cases hen : s.enabled = true
+  case neg =>
+    have hen : s.enabled = false := by simpa using hen
+    have : seedSelf { s with self := some (n, as) } = { s with self := some (n, as) } := by simp [seedSelf, hen]
+    rw [this]
+    obtain ⟨e4, e6⟩ := h.off hen
+    exact ⟨hsa.symm, fun _ hx => by simp [e4] at hx, fun _ hx => by simp [e6] at hx, hosts', fun _ => ⟨e4, e6⟩⟩
+  case pos =>
+    have weak : ∀ f m, TblP (EntryOK evs s.self s.selfHost) f m →
+        TblP (fun k a => HsSrc (evs ++ [Ev.renew n as]) k a ∨ (k = s.selfHost ∧ s.selfHost ≠ [])) f m := by
+      intro f m hm e he
+      have := weak_of_entry hm e he
+      refine ⟨this.1, ?_⟩
+      rcases this.2 with h1 | h1
+      · exact Or.inl (h1.mono sub)
+      · exact Or.inr h1
+    obtain ⟨e1, e2, e3, t4, t6⟩ := seedSelf_tables (evs := evs ++ [Ev.renew n as]) (s := { s with self := some (n, as) })
+      hen n as rfl (weak _ _ h.m4) (weak _ _ h.m6)
+    refine ⟨by rw [e1]; exact hsa.symm, by rw [e1]; exact t4, by rw [e1]; exact t6, by rw [e2]; exact hosts', ?_⟩
+    intro hoff; rw [e3] at hoff; cases hoff
+
 theorem inv_apply {me : Self} {evs : List Ev} {s : St} (e : Ev) (h : Inv me evs s) :
     Inv me (evs ++ [e]) (apply s e) := by
-  have h' := h.mono e
   cases e with
-  | seed => exact inv_seedSelf h'
-  | disable => exact inv_clear (inv_enabled false h')
-  | enable => exact inv_seedSelf (inv_enabled true h')
+  | seed => exact inv_seedSelf (h.mono _ (by intro n as hc; cases hc))
+  | disable => exact inv_disable (h.mono _ (by intro n as hc; cases hc))
+  | enable => exact inv_seedSelf (inv_enabled (h.mono _ (by intro n as hc; cases hc)))
+  | renew n as => exact inv_renew n as h
+  | drop k =>
+    have h' := h.mono (Ev.drop k) (by intro n as hc; cases hc)
+    exact ⟨h'.self_eq, h'.m4, h'.m6, fun x hx => h'.hosts x (List.mem_filter.mp hx).1, h'.off⟩
   | hs k n as =>
+    have h' := h.mono (Ev.hs k n as) (by intro n as hc; cases hc)
     have hm : Ev.hs k n as ∈ evs ++ [Ev.hs k n as] := List.mem_append_right _ (List.mem_singleton.mpr rfl)
     have h1 : Inv me (evs ++ [Ev.hs k n as]) (add s (n ++ ['.']) as) :=
-      inv_add _ _ (fun a ha => Or.inl ⟨k, n, as, hm, rfl, ha⟩) h'
-    exact ⟨h1.self_eq, h1.m4, h1.m6, hosts_foldl _ k n as as hm (fun _ h => h) _ h1.hosts⟩
+      inv_add _ _ (fun a ha => ⟨k, n, as, hm, rfl, ha⟩) h'
+    exact ⟨h1.self_eq, h1.m4, h1.m6, hosts_foldl _ k n as as hm (fun _ h => h) _ h1.hosts, h1.off⟩
 
 theorem inv_foldl {me : Self} (evs : List Ev) :
     ∀ (evs0 : List Ev) (s : St), Inv me evs0 s → Inv me (evs0 ++ evs) (evs.foldl apply s) := by
@@ -176,6 +296,23 @@ theorem inv_foldl {me : Self} (evs : List Ev) :
 theorem inv_run (me : Self) (evs : List Ev) : Inv me evs (run me evs) := by
   have := inv_foldl (me := me) evs [] (St.init me) (inv_init me)
   simpa [run] using this
+
+/-- what the invariant says about an entry: it is authentic w.r.t. the history and the current own certificate. -/
+theorem Inv.src4 {me : Self} {evs : List Ev} {s : St} (h : Inv me evs s) {key : Name} {a : Addr}
+    (hm : (key, a) ∈ s.map4) : a.fam = .v4 ∧ Src (selfAfter me evs) evs key a := by
+  obtain ⟨hf, hs⟩ := h.m4 _ hm
+  refine ⟨hf, ?_⟩
+  rcases hs with h1 | ⟨_, h1⟩
+  · exact Or.inl h1
+  · exact Or.inr (h.self_eq ▸ h1)
+
+theorem Inv.src6 {me : Self} {evs : List Ev} {s : St} (h : Inv me evs s) {key : Name} {a : Addr}
+    (hm : (key, a) ∈ s.map6) : a.fam = .v6 ∧ Src (selfAfter me evs) evs key a := by
+  obtain ⟨hf, hs⟩ := h.m6 _ hm
+  refine ⟨hf, ?_⟩
+  rcases hs with h1 | ⟨_, h1⟩
+  · exact Or.inl h1
+  · exact Or.inr (h.self_eq ▸ h1)
 
 /-! ### lookups -/
 
